@@ -163,7 +163,7 @@ def model_spec(draw, cfg=None):
     collision = cfg.get("collision", None)
     if collision is None:
         collision = draw(st.integers(0, 4)) == 0
-    n_types = draw(st.integers(1, cfg.get("max_types", 3)))
+    n_types = draw(st.integers(cfg.get("min_types", 1), cfg.get("max_types", 3)))
     ops, ntypes = {}, {}
     oc = 0
     for ti in range(n_types):
@@ -173,7 +173,9 @@ def model_spec(draw, cfg=None):
             od = draw(operator_def(cfg, tuple(outs), idx=oc, leak=leak, funcs=funcs, collision=collision,
                                    prev_inputs=tuple(ins)))
             ins.extend(v[0] for v in od["vars"] if v[1] == "input")
-            on = f"op{oc}"
+            # operator names that are prefixes of one another inside one node type (op0, op0_b; op2, op2_b): scopes and
+            # paths are matched as strings in several places of the code under test
+            on = f"op{oc}" if oc % 2 == 0 else f"op{oc - 1}_b"
             oc += 1
             ops[on] = od
             names.append(on)
@@ -323,7 +325,7 @@ def depends_on(ast, var, names):
 
 
 @st.composite
-def with_edge_templates(draw, spec, same_keys=None):
+def with_edge_templates(draw, spec, same_keys=None, extra_sources=True):
     """turn some edges of a spec into edges through EdgeTemplates with one algebraic operator (m_e = f(s_e; g_e, c_e)); values
     for g_e / c_e come from the operator, from the template's variations and from the edge attribute dictionaries.
     (Used where the property names edge templates: C15 round trips, C14 histories; RefModel evaluates them.)"""
@@ -332,12 +334,20 @@ def with_edge_templates(draw, spec, same_keys=None):
     if not spec["edges"]:
         return spec
     n_ops = draw(st.integers(1, 2))
+    two_inputs = {}
     for k in range(n_ops):
-        ast, _ = draw(E.expr_strategy(["s_e", "g_e", "c_e"], max_depth=2, funcs=["tanh", "sigmoid", "sin"], allow_pow=False))
-        if not depends_on(ast, "s_e", ["s_e", "g_e", "c_e"]):
+        # every third edge operator has a second input variable t_e that is fed from a named variable (the coupling
+        # functions of the shipped Kuramoto templates: s = sin(theta_s - theta_t))
+        two_inputs[k] = extra_sources and draw(st.integers(0, 2)) == 0
+        names = ["s_e", "g_e", "c_e"] + (["t_e"] if two_inputs[k] else [])
+        ast, _ = draw(E.expr_strategy(names, max_depth=2, funcs=["tanh", "sigmoid", "sin"], allow_pow=False))
+        if not depends_on(ast, "s_e", names) or (two_inputs[k] and not depends_on(ast, "t_e", names)):
             ast = ["bin", "*", ["var", "g_e"], ["call", "tanh", ["bin", "*", ["var", "c_e"], ["var", "s_e"]]]]
+            if two_inputs[k]:
+                ast = ["bin", "*", ["var", "g_e"], ["call", "sin", ["bin", "-", ["var", "s_e"], ["bin", "*", ["var", "c_e"], ["var", "t_e"]]]]]
         vs = E.variables(ast)
         spec["ops"][f"eop{k}"] = {"vars": [["s_e", "input", 0.0], ["m_e", "alg", 0.0]] +
+                                          ([["t_e", "input", 0.0]] if two_inputs[k] else []) +
                                           [[v, "const", d] for v, d in (("g_e", 1.5), ("c_e", 0.8)) if v in vs],
                                   "eqs": [["m_e", False, ast, 0]], "out": "m_e"}
     val = st.sampled_from([0.7, 1.3, -0.4, 2.1, 0.25])
@@ -364,6 +374,22 @@ def with_edge_templates(draw, spec, same_keys=None):
         for v in [v[0] for v in spec["ops"][o]["vars"] if v[1] == "const"]:
             if same_keys or draw(st.integers(0, 2)) == 0:
                 e["ev"][f"{o}/{v}"] = draw(val)
+        if any(v[0] == "t_e" for v in spec["ops"][o]["vars"]):
+            # the second input reads a state variable of a node inside the circuit that owns the edge (by default the
+            # target node's, as in the Kuramoto coupling); the path is relative to that circuit
+            scope = e.get("scope") or ""
+            cands = []
+            for p, nt in spec["nodes"]:
+                if scope and not p.startswith(scope + "/"):
+                    continue
+                rel = p[len(scope) + 1:] if scope else p
+                for o2 in spec["ntypes"][nt]["ops"]:
+                    for v in spec["ops"][o2]["vars"]:
+                        if v[1] == "state":
+                            cands.append(f"{rel}/{o2}/{v[0]}")
+            tnode = e["t"].rsplit("/", 2)[0]
+            own = [c for c in cands if c.rsplit("/", 2)[0] == tnode]
+            e["xs"] = {f"{o}/t_e": draw(st.sampled_from(own if own and draw(st.integers(0, 3)) else cands))}
     used = {e["et"] for e in spec["edges"] if e.get("et")}
     spec["etypes"] = {k: v for k, v in spec["etypes"].items() if k in used}
     used_ops = {o for et in spec["etypes"].values() for o in et["ops"]}
